@@ -1,7 +1,7 @@
 (* Obligation C16/normalize_sub_eps.  Statement as printed by Coq from Inferno.C16.NormProofs; proof by reference.
    This file contains nothing else, so the statement cannot be weakened quietly. *)
 From Coq Require Import List ZArith Reals Bool Lra Lia.
-From Inferno Require Import Base.Num Base.NumR C16.Hooks C16.Norm C16.NormProofs.
+From Inferno Require Import Base.Num Base.NumR C16.Hooks C16.Norm C16.NormSpec C16.NormProofs.
 Import ListNotations.
 Open Scope R_scope.
 Theorem normalize_sub_eps : forall (o : order RN) (s : T RN) (eps : R) (x : list (T RN)),
